@@ -191,7 +191,85 @@ def run(ctx):
                 if isinstance(v2, ast.Call) and isinstance(v2.func, ast.Attribute) \
                         and v2.func.attr == "split":
                     hsplits.append(v2)
-    ctx.require(hsplits, "memory_maps: the six-column header unpacking vanished")
+    if not hsplits:
+        # no six-way unpacking: the path is taken by index from some split result.
+        # May-flow of UNBOUNDED split results (no maxsplit) through assignments,
+        # containers, yields and loop targets of memory_maps() and its helpers: if one
+        # can reach the record's path slot, a path with spaces is cut short
+        fdefs = [x for x in allnodes if isinstance(x, (ast.FunctionDef,))]
+        tainted, bounded = set(), set()
+
+        def is_split(e, want_unbounded):
+            if isinstance(e, ast.Call) and isinstance(e.func, ast.Attribute) and e.func.attr == "split":
+                # whitespace splits only: `data.split(b'\n')` cuts the file into lines
+                if e.args and not (isinstance(e.args[0], ast.Constant) and e.args[0].value is None):
+                    return False
+                ms = e.args[1] if len(e.args) > 1 else next(
+                    (k.value for k in e.keywords if k.arg == "maxsplit"), None)
+                unb = ms is None or (isinstance(ms, ast.Constant) and (ms.value is None or ms.value < 0))
+                five = isinstance(ms, ast.Constant) and ms.value == 5
+                return unb if want_unbounded else five
+            return False
+
+        def names_in(e):
+            return {n.id for n in ast.walk(e) if isinstance(n, ast.Name)}
+
+        def store_names(t):
+            return {n.id for n in ast.walk(t) if isinstance(n, ast.Name)}
+        for _ in range(6):
+            for st_ in allnodes:
+                srcs_, tgts_ = [], set()
+                if isinstance(st_, ast.Assign):
+                    srcs_, tgts_ = [st_.value], set().union(*[store_names(t) for t in st_.targets])
+                elif isinstance(st_, ast.For):
+                    srcs_, tgts_ = [st_.iter], store_names(st_.target)
+                elif isinstance(st_, ast.Expr) and isinstance(st_.value, ast.Call) \
+                        and isinstance(st_.value.func, ast.Attribute) \
+                        and st_.value.func.attr in ("append", "add", "extend", "insert") \
+                        and isinstance(st_.value.func.value, ast.Name):
+                    srcs_, tgts_ = list(st_.value.args), {st_.value.func.value.id}
+                elif isinstance(st_, ast.Expr) and isinstance(st_.value, (ast.Yield,)) \
+                        and st_.value.value is not None:
+                    g_ = next((f_ for f_ in fdefs if any(y is st_ for y in ast.walk(f_))), None)
+                    if g_ is not None:
+                        srcs_, tgts_ = [st_.value.value], {"<ret:" + g_.name + ">"}
+                elif isinstance(st_, ast.Return) and st_.value is not None:
+                    g_ = next((f_ for f_ in fdefs if f_ is not mm.node
+                               and any(y is st_ for y in ast.walk(f_))), None)
+                    if g_ is not None:
+                        srcs_, tgts_ = [st_.value], {"<ret:" + g_.name + ">"}
+                for e_ in srcs_:
+                    hit_t = any(is_split(x, True) for x in ast.walk(e_)) or (names_in(e_) & tainted) \
+                        or any(isinstance(x, ast.Call) and isinstance(x.func, ast.Name)
+                               and "<ret:" + x.func.id + ">" in tainted for x in ast.walk(e_))
+                    if hit_t:
+                        tainted |= tgts_
+                # arguments of calls to the nested helpers bind their parameters
+                for c_ in [x for x in ast.walk(st_) if isinstance(x, ast.Call)
+                           and isinstance(x.func, ast.Name)]:
+                    g_ = next((f_ for f_ in fdefs if f_.name == c_.func.id), None)
+                    if g_ is not None:
+                        for a_, p_ in zip(c_.args, g_.args.args):
+                            if any(is_split(x, True) for x in ast.walk(a_)) or (names_in(a_) & tainted):
+                                tainted.add(p_.arg)
+        item_ = [t_ for t_ in allnodes if isinstance(t_, ast.Tuple) and len(t_.elts) >= 10
+                 and isinstance(t_.ctx, ast.Load)]
+        pslot = item_[0].elts[2] if item_ else None
+        pnames = names_in(pslot) if pslot is not None else set()
+        # one assignment level back (path = decode(hfields[5]) ...)
+        for _ in range(3):
+            for st_ in allnodes:
+                if isinstance(st_, ast.Assign) and (store_names(st_.targets[0]) & pnames):
+                    pnames |= names_in(st_.value)
+        if pslot is None:
+            raise AnalysisError("memory_maps: neither a six-column header unpacking nor a result tuple")
+        if pnames & tainted:
+            ctx.fail("C13.R3", "split:header", mm.file, mm.node.lineno, mm.qual,
+                     f"the mapping's path can come from an UNBOUNDED split() (via "
+                     f"{sorted(pnames & tainted)}): a header line whose path contains spaces is "
+                     f"cut at the first one; the header must be split at most 5 times")
+        else:
+            ctx.ok("C13.R3", "split:header", sample="no unbounded split result reaches the path slot")
     for c in hsplits:
         a = [norm_stmt(x) for x in c.args]
         key = "split:header"
@@ -472,6 +550,31 @@ def run(ctx):
         ctx.fail("C13.R5", "form", mp.file, mp.node.lineno, mp.qual,
                  f"memory_percent('rss') = {[repr(v)[:120] for v in vals]}; documented "
                  f"100 * field / total physical memory")
+    # every accepted memtype is looked up on a record that HAS that field: the getter
+    # selection is evaluated for each field of pfullmem (a finite domain)
+    pmf = I.namedtuples.get((pm, "pmem")) or ()
+    pff = I.namedtuples.get((pm, "pfullmem")) or ()
+    ctx.require(pmf and pff, "pmem / pfullmem field lists not found")
+    wrong = []
+    for f_ in pff:
+        tf_ = I.call_function(mp, [("const", f_)])
+        for g_ in collect(tf_, lambda x: x and x[0] == "gphi" and x[1] and x[1][0] == "cmp"
+                          and x[1][1] in ("in", "notin") and x[1][2] == ("const", f_)):
+            cont = g_[1][3]
+            if cont[0] not in ("tuple", "list", "set") or not all(e_[0] == "const" for e_ in cont[1:]):
+                continue
+            member = f_ in [e_[1] for e_ in cont[1:]]
+            taken = g_[2] if (member == (g_[1][1] == "in")) else g_[3]
+            txt_ = pretty(taken)
+            if "memory_info" in txt_ and "memory_full_info" not in txt_ and f_ not in pmf:
+                wrong.append(f_)
+    if wrong:
+        ctx.fail("C13.R5", "getter-has-field", mp.file, mp.node.lineno, mp.qual,
+                 f"memory_percent({wrong[0]!r}) is accepted by the validation but looked up on "
+                 f"memory_info(), whose record has no such field (AttributeError): {sorted(set(wrong))} "
+                 f"exist only in memory_full_info()")
+    else:
+        ctx.ok("C13.R5", "getter-has-field", sample=f"evaluated for {list(pff)}")
     ctx.assume("smaps keys and statm columns as documented in proc(5)")
     return ("Abstract interpretation of memory_info / smaps parsers (statm columns, "
             "pages*PAGESIZE, key selection, kB*1024, tuple order), regex-literal "
